@@ -16,7 +16,7 @@ YOUR TASK: make ONE small, realistic change to the project's NON-test source cod
   (a) the project still compiles: `cd /tmp/wt/{pid} && go build ./...`
   (b) the existing tests of every package you touched (and packages that import it, at least `go test -vet=off -count=1 ./pkg/edition/java/... ./pkg/gate/... ./pkg/internal/... ./pkg/util/...` restricted to what is relevant; run the relevant ones fully) still PASS with your change,
   (c) the breakage needs something SPECIFIC to manifest: a particular goroutine interleaving, a fault at a particular point, a multi-step sequence of operations, an unusual input, or two cooperating code sites that each look fine alone. Do NOT make a change that ordinary use would expose at once. It should look like a plausible refactoring or maintenance slip a developer could commit, not sabotage with obviously dead or silly code.
-Also write a DEMONSTRATION: a Go test (put it in a NEW file named zz_demo_{pid.lower()}_test.go inside the relevant package, it may use unexported identifiers) or a small Go program, which FAILS (or deadlocks/panics/reports a data race with -race) WITH your change and PASSES WITHOUT it. Verify both directions yourself (e.g. `git stash` the source change, run the demo, `git stash pop`, run again).
+Also write a DEMONSTRATION: a Go test (put it in a NEW file named zz_demo_{pid.lower()}_test.go inside the relevant package, it may use unexported identifiers) or a small Go program, which FAILS (or deadlocks/panics/reports a data race with -race) WITH your change and PASSES WITHOUT it. Verify both directions yourself (save the change with `git diff > /tmp/mut/{pid}/patch.diff`, undo it with `git checkout -- <files>`, run the demo, re-apply with `git apply`, run again — do NOT use `git stash`: the stash is shared between worktrees).
 
 DELIVERABLES in /tmp/mut/{pid}/ :
   patch.diff  - `git diff` of the source change ONLY (exclude the demo test file; it must apply with `git apply` on a clean checkout of this commit)
